@@ -125,6 +125,11 @@ def judge_fail(case, obs):
         if ent.hex() not in [r["bytes"] for r in E if r["ret"] == 0] or len(words) != xm["L"]:
             return v.bad("C12/%s/not-from-a-served-buffer" % tagbase,
                          "a request failed and the printed phrase encodes %s, which no successful entropy request served" % ent.hex())
+        if not xm.get("vanity"):
+            # plain generation makes one request; it reported failure, so there must be no phrase (a silent retry hides the
+            # failure the property wants reported)
+            return v.bad("C12/%s/phrase-printed-after-failure" % tagbase,
+                         "the entropy request reported failure (errno %s) but a phrase was printed: %r" % (case["steps"][0]["cli"]["ent"].get("ERRNO", 5), o["stdout"][:60]))
         if xm.get("vanity"):
             key = eth.bip32_derive(bip39.seed(words, ""), eth.default_path(0))
             addr = eth.address_of_key(key)[2:].lower()
@@ -219,8 +224,6 @@ def judge_lib(case, obs):
     if req.get("fail_at") or req.get("fail_from"):
         if "ok" in o:
             served = [c["bytes"] for c in calls if c["ret"] == 0]
-            if req.get("fail_at") and served and o["ok"]["phrase"] == " ".join(bip39.encode(bytes.fromhex(served[-1]))):
-                return v.bucket("lib-fail-retried-and-served")
             return v.bad("C12/lib-fail-L%d/generated" % L, "every usable entropy request failed (errno %s) but a phrase was returned: %r" % (
                 req.get("errno", 5), o["ok"]["phrase"][:40]))
         if not calls or calls[0]["ret"] != -1:
@@ -302,6 +305,7 @@ def gen(shard, rng, tier):
                     ents.append({"FAIL_FROM": 1, "ERRNO": en})
                     ents.append({"FAIL_AT": 1, "ERRNO": en, "MODE": "prng", "SEED": L})
                 for ent in ents:
+                    ent = dict(ent, CAP=500)  # a retry loop on a persistent failure is unbounded computation, decided on requests
                     yield {"j": "fail", "profile": p, "x": {"cls": "fail-plain", "L": L}, "steps": [{"cli": {"argv": ["new", "-n", str(L)], "ent": ent}}]}
     elif name == "kernel":
         for L in LEGAL:
@@ -349,6 +353,12 @@ def gen(shard, rng, tier):
                 e = [bytes(nb), b"\xff" * nb, (1 << rng.randrange(nb * 8)).to_bytes(nb, "big"), rand_bytes(rng, nb), bytes(range(nb))][k]
                 req = {"op": "mnemonic.random", "length": L, "entropy": e.hex()}
             yield from both(lib_case("lib", req, {"cls": "lib-random"}))
+        # the same bytes served twice in a row (and three times): every successful request is used, whatever it returned
+        for L in LEGAL:
+            nb = bip39.ENT_BYTES[L]
+            for e in (bytes(nb), b"\xff" * nb, rand_bytes(rng, nb)):
+                for _ in range(3):
+                    yield from both(lib_case("lib", {"op": "mnemonic.random", "length": L, "entropy": e.hex()}, {"cls": "lib-random-repeated-block"}))
         for L in range(0, 41):
             yield from both(lib_case("lib", {"op": "mnemonic.random", "length": L}, {"cls": "lib-random"}))
 
